@@ -21,6 +21,10 @@ CLAIMED = {
   text='Coq theorems (Props/C12.v) about the model of sort_rows (key calculation incl. the sign-flipped binary64 image, row-number suffix, ordered key/value store): the store returns a sorted permutation; fixed-width hex suffixes order like their numbers; whenever no key is a proper prefix of another (always so for numeric keys) the output is strictly increasing in (key, input position) -- ascending, stable, a permutation -- for any number of rows below 16^8; reverse=True is exactly the reversed list. Correspondence by vm_compute against the real sort_rows (several batch sizes; above the 10240-entry cache in the thorough tier); direct oracle = stable sort by the property\'s order. Four known findings (prefix text keys, inexact doubles, -0.0, multi-field concatenation) are recognised individually.',
   note='Trusted: Coq kernel+vm_compute; KVFile specified as an ordered map (exercised, not verified); monotonicity of the binary64 bit image is validated by correspondence (adjacent doubles of both signs in the pool), not yet proved; harness oracle and recognisers.',
   technique='Coq proof over executable model + vm_compute correspondence + direct oracle + known-finding recognisers', ref='5/C12'),
+ 'C16': dict(
+  text='Coq theorems (Props/C16.v) about executable models of concatenate, duplicate, delete_resource and appending sources over packages of any size: the concatenation target sits at the first selected position with prefix and suffix resources identical, non-consecutive selections are rejected, target rows are one per source row in resource order with exactly the target fields as keys; duplicate\'s copy read back from the ordered store equals the source rows for any length below 16^w (w regenerated from the source) and is placed right after the source or at the end with everything else unchanged; delete_resource filters exactly the selected resources keeping order; sources append. Correspondence by vm_compute against the real processors (batch sizes 1/7/1000, in-place edit after duplicate, four kinds of appending source); direct oracle from the property statement.',
+  note='Trusted: Coq kernel+vm_compute; KVFile as ordered map; selections passed as explicit name lists (C10 covers selector meaning); harness oracle.',
+  technique='Coq proof over executable model + generated constants + vm_compute correspondence + direct oracle', ref='5/C16'),
 }
 
 NOT_YET = 'check not built yet (work in progress; will be claimed once its Coq model, theorems and correspondence check exist)'
